@@ -43,12 +43,13 @@ def cfg_variant(cfg, work, subst, suffix):
 # ----------------------------------------------------------------------------- alias programs
 
 def th(kind):
-    return 1 if kind in ("WL", "WM") else 0
+    return 1 if kind in ("WL", "WM", "WE") else 0
 
 
 ACCESS = {
     "G": "pg{j}@@", "P": "p{j}", "L": "x{j}", "M": "x{j}", "K": "x{j}", "S": "s{j}", "B": "(unbox b{j})", "C": "(c{j})",
-    "EM": "(PMut@@-v e{j})", "PR": "(pp{j}@@)",
+    "EM": "(PMut@@-v e{j})", "PR": "(pp{j}@@)", "RA": "(car ra{j})", "EK": "(car (hash-keys->list e{j}))",
+    "WE": "(list-ref w{j} 1)",
     "EL": "(list-ref e{j} 1)", "EP": "(car e{j})", "EV": "(vector-ref e{j} 0)", "EI": "(vector-ref e{j} 1)",
     "EH": "(hash-ref e{j} 'k)", "ES": "(PHold@@-v e{j})", "WL": "w{j}", "WM": "w{j}",
 }
@@ -57,7 +58,8 @@ BIND = {
     "C": "(let ([c{j} (let ([t {X}]) (lambda () t))])",
     "EL": "(let ([e{j} (list 0 {X})])", "EP": "(let ([e{j} (cons {X} 0)])", "EV": "(let ([e{j} (vector {X} 0)])",
     "EI": "(let ([e{j} (immutable-vector 0 {X})])", "EH": "(let ([e{j} (hash 'k {X})])",
-    "ES": "(let ([e{j} (PHold@@ {X})])", "EM": "(let ([e{j} (PMut@@ {X})])", "WL": "(let ([w{j} {X}])", "WM": "(let ([w{j} {X}])",
+    "ES": "(let ([e{j} (PHold@@ {X})])", "EM": "(let ([e{j} (PMut@@ {X})])", "EK": "(let ([e{j} (hash {X} 'v)])",
+    "WE": "(let ([w{j} {X}])", "WL": "(let ([w{j} {X}])", "WM": "(let ([w{j} {X}])",
 }
 
 
@@ -175,6 +177,12 @@ class AliasProgram:
         if kind == "G":
             self.pre.append(f"(define pg{j}@@ #f)")
             T.add(f"(set! pg{j}@@ {X})")
+        elif kind == "RA":
+            # the rest list is built by a variadic helper (an immediately applied variadic lambda inside a let
+            # body is miscompiled by Steel - the rest parameter is bound to the bare argument - which is not
+            # this property's concern)
+            self.pre.append("(define (pra@@ . ra) ra)")
+            T.add(f"(let ([ra{j} (pra@@ {X} 0)])", ")")
         elif kind == "S":
             T.add(f"(let ([s{j} #f])", ")")
             T.add(f"(set! s{j} {X})")
@@ -259,6 +267,8 @@ class AliasProgram:
                     X = a["tpl"].replace("$v", src).replace(
                         "$a", f"(call/cc (lambda (kk) (set! pk{n}x@@ kk) {a['alt']}))")
         dt = th(a["kind"])
+        if a["kind"] == "WE":     # the value crosses (or stays on) the second thread inside a list
+            X = f"(list 0 {X})"
         if st == 1:
             self.m2w()
         if a["a"] == "upd" and a["via"] in ("g", "a", "m"):
